@@ -264,7 +264,7 @@ pub fn status_name(s: StatusCode) -> String {
 }
 
 pub fn sanitize(s: &str) -> String {
-    site_sig(s).chars().map(|c| if c.is_whitespace() { '_' } else { c }).collect()
+    site_sig(s).chars().filter(|c| *c != '`').map(|c| if c.is_whitespace() { '_' } else { c }).collect()
 }
 
 /// secure every chunk of the message on the sender; Err((stage, status or panic site))
